@@ -374,3 +374,9 @@ Definition item_in_domain (i : lex_item) : bool :=
   end.
 Definition in_domain (t : text) : bool :=
   forallb item_in_domain (lex_items (preprocess t)).
+
+(* the text of a keyword or symbol token as the table spells it (the first pattern of the kind) *)
+Definition canonical (k : tok_kind) : text :=
+  match find (fun row => kind_eqb (snd row) k) literal_tokens with Some row => fst (fst row) | None => [] end.
+(* positions play no role in the grammar: a token without them *)
+Definition norm_tok (t : token) : token := mkToken (t_kind t) 0 0 0 0 (t_text t).
